@@ -73,14 +73,15 @@ CLAIMS = {
         technique="Lean 4 weakest-precondition calculus over an abstract environment (all schedules, all answers) + refinement of the chip-model interpreter to that environment + TX schedules on the real driver",
         design="7 C04"),
     'C05': dict(
-        text="Proof for the explicit-header path, correspondence for the rest. Theorems Sx.C05_rx_done / C05_crc_error (plain execution) and "
-             "C05_cached (cached build after any admissible history): whenever RegIrqFlags holds RxDone without CadDone and PayloadCrcError "
+        text="Proof for explicit and implicit header; correspondence for flag combinations with CadDone. Theorems Sx.C05_rx_done, "
+             "C05_rx_done_implicit (configured length, any 16-bit value: the low byte is used and RegRxNbBytes is not read), C05_crc_error "
+             "(plain execution) and C05_cached / C05_cached_implicit (cached build after any admissible history): whenever RegIrqFlags holds RxDone without CadDone and PayloadCrcError "
              "(any other flags), for every RxNbBytes 0..255, every FifoRxCurrentAddr (wrap-around at 256 proved by induction on the burst), "
              "every buffer content, FIFO pointer and other handle fields, one handler invocation invokes exactly one callback, the receive "
              "callback with exactly the chip's bytes and length, acknowledges exactly the flags read and resets the per-packet state "
-             "(so the outcome does not depend on the packets before); a packet with PayloadCrcError yields no callback. The implicit-header "
-             "path and flag combinations with CadDone are covered by the trace correspondence and the delivery monitor only.",
-        technique="Lean 4 weakest-precondition proof of the LoRa handler + induction on the FIFO burst + scheduler scripts",
+             "(so the outcome does not depend on the packets before); a packet with PayloadCrcError yields no callback. Flag "
+             "combinations with CadDone are covered by the trace correspondence and the delivery monitor only.",
+        technique="Lean 4 weakest-precondition proof of the LoRa handler (both header modes) + induction on the FIFO burst + scheduler scripts",
         design="7 C05"),
     'C06': dict(
         text="Proof. Theorems Sx.C06_set_for_transmission (for every payload of 1..255 bytes, any prior FIFO pointer, buffer and register content: "
